@@ -31,7 +31,7 @@ def c02Sources : List (String × String) := [
   ("tensordict/base.py:TensorDictBase.unbind", "0733c4bca1e9ee25"),
   ("tensordict/base.py:TensorDictBase.repeat", "7d098c6e0d06a307"),
   ("tensordict/base.py:TensorDictBase.gather", "29ccddf86037f3c2"),
-  ("tensordict/_torch_func.py:_gather", "2d095fc7e6abd2c9"),
+  ("tensordict/_torch_func.py:_gather", "cd681bf4d41dc1ca"),
   ("tensordict/_torch_func.py:_stack", "11e01a46650415d2"),
   ("tensordict/_torch_func.py:_cat", "dac0d495e3f1b6b1"),
   ("tensordict/_torch_func.py:_split", "062a5b309b7a7a6b"),
